@@ -8,10 +8,10 @@ E = "exhaustive enumeration of a bounded input domain through the real code agai
 
 checks = {
  "C01": dict(engine="Q+E+S", tech=Q + "; " + E + "; " + S,
-   text="every state of the key list (all orders x all last-client-IP assignments, built through the public API) x every (key, client IP) is authenticated once on the real authenticator and compared with the configuration; all single-bit flips/truncations of the 50 key-finding bytes; position sweep to 100 (300) keys; concurrent authentications vs. list replacement under every schedule within the bound, with the happens-before race monitor",
+   text="every state of the key list (all orders x all last-client-IP assignments, built through the public API) x every (key, client IP) is authenticated once on the real authenticator and compared with the configuration; all single-bit flips/truncations of the 50 key-finding bytes; position sweep to 100 (300) keys; concurrent authentications vs. list replacement under every schedule within the bound; key lists built from configurations (same secret under several ciphers, duplicates, 45 keys) through the real server",
    note="bounded: 5 (6) keys in the state sweep, lists to 100 (300) keys, 3 client IPs; AEAD unforgeability assumed (all 2^400 openings cannot be enumerated)"),
  "C02": dict(engine="E+S", tech=E + "; " + S,
-   text="real StreamServe/Handle/default dialer on the in-memory network: payload-size x chunking x segmentation x address-type x cipher x coalescing grid on the default schedule, plus every schedule (deviation bound 2/3) of six who-speaks-first / who-half-closes-first scenarios with 256-byte socket buffers; oracle compares both byte streams, EOF order, status and the four byte counters",
+   text="real StreamServe/Handle/default dialer on the in-memory network: payload-size x chunking x segmentation x address-type x cipher x coalescing grid on the default schedule, plus every schedule (deviation bound 2/3) of six who-speaks-first / who-half-closes-first scenarios with 256-byte socket buffers; connections silent for 58 s / 60 s / 1 h after the handshake; oracle compares both byte streams and the end-of-stream order (metrics and leaks are C15/C18)",
    note="bounded payload set {0,1,16382,16383,16384,32767}; one connection per execution; vnet TCP model"),
  "C03": dict(engine="Q+E", tech=Q + "; " + E,
    text="all operation sequences to depth 3 (4) over a 26-operation menu of client datagrams (valid under each cipher, wrong key, other listed key on a live association, flipped, truncated, bad address, private destination, domain) and target/stranger replies on the real packet handler; oracle decides forwarding, payload integrity, source stability, attribution, reply encryption/sender address/salt freshness from the statement, association liveness is observed on the sockets; datagram and reply sizes up to the buffer limits incl. zoned IPv6 senders",
@@ -26,10 +26,10 @@ checks = {
    text="every sequence of depth 7 (8) over {Add(h1..h5), Add(h6 colliding with h1), Resize(0..3)} from every initial capacity 0..3 on the real ReplayCache in lock-step with the statement's reference model; capacities up to 20000 with 2.5N handshakes and re-presentation; construction limits; concurrent Add/Add/Add and Add/Add/Resize under every schedule (unbounded) with the race monitor",
    note="the cross-listener / cross-reload clauses are covered by the package-main harness (same property id) once built; checksum collisions are constructed, not searched"),
  "C08": dict(engine="E", tech=E,
-   text="4 (100) batches x 50 complete connections per cipher through the real handler: exact pairwise freshness of the server salts within a batch, recognisability by the key's own generator, and reflection of real recorded server output (whole, extended, every truncation >= 50 bytes) with the cache nil/disabled/on: ERR_REPLAY_SERVER and probe handling (nothing written, no dial, closed at the timeout)",
+   text="4 (100) batches x 50 complete connections per cipher through the real handler: exact pairwise freshness of the server salts within a batch, recognisability by the key's own generator, and reflection of real recorded server output (whole, extended, every truncation >= 50 bytes) with the cache nil/disabled/on: ERR_REPLAY_SERVER and probe handling (nothing written, no dial, closed at the timeout); supplementary free-running pass of concurrent salt generation under the race detector (sampling)",
    note="crypto/rand is a deterministic DRBG per batch; aes-128 (16-byte salt) is outside the recognisability clause"),
  "C14": dict(engine="Q", tech=Q + " on a virtual clock",
-   text="all 12^4 (12^5) sequences over {DNS / non-DNS datagrams of two clients, replies from port 53 / 80, advances of 1 s, 16 s, 17 s+, T-1 s, T+, shutdown} for NAT timeouts 300 s and 10 s on the real packet handler; reference = the statement's promise (max over datagrams of send time + 17 s / T), the server's own deadlines are read from the socket log: no early expiry, deadlines monotone, reclamation after the deadline, single-DNS fast close, prompt shutdown, one removal report per association, no leaked thread or socket",
+   text="all 15^4 (15^5) sequences over {DNS / non-DNS datagrams of two clients (incl. a port ending in 53 and a datagram whose sendto fails), replies from port 53 / 80 / 8053, advances of 1 s, 16 s, 17 s+, T-1 s, T+, shutdown} for NAT timeouts 300 s and 10 s on the real packet handler; reference = the statement's promise (max over datagrams of send time + 17 s / T), the server's own deadlines are read from the socket log: no early expiry, deadlines monotone, reclamation after the deadline, single-DNS fast close, prompt shutdown, one removal report per association, no leaked thread or socket",
    note="exact virtual instants; no datagram is sent at the very instant of a deadline (open outcome)"),
  "C15": dict(engine="E+S", tech=E + "; " + S,
    text="every connection outcome class (OK, ERR_CIPHER, both replay kinds, ERR_READ_ADDRESS, ERR_ADDRESS_*, ERR_CONNECT, ERR_RELAY_CLIENT, ERR_RELAY_TARGET) x ciphers x sizes, singly and in sequences, with a recording TCPConnMetrics teed into the real Prometheus collectors: call multiplicity/order/status, probe bytes = bytes sent, counters vs. bytes on the vnet sockets (equal when completed, never larger), gathered counters vs. calls; pairs of concurrent connections under every schedule within the bound",
@@ -38,10 +38,10 @@ checks = {
    text="all sequences to depth 3 (4) over the C03 menu plus clock advances with a recording UDPMetrics (every third sequence also through the real Prometheus collectors): one add/remove per association, one client report per datagram on an association with status, wire size and payload size, one target report per reply, per-key per-direction sums equal the bytes on the sockets, gathered counters equal the calls",
    note="association liveness observed on the sockets"),
  "C18": dict(engine="E+S", tech=E + "; " + S,
-   text="TCP: every address-type byte x fillers, domain lengths, headers truncated at every length, out-of-range and zero chunk lengths, every outcome class, each followed by a well-formed connection that must be served; UDP: the same shapes as datagrams, replies of boundary sizes from IPv4/IPv6/zoned sources, socket-creation failure, shutdown; concurrent hostile+normal connections, injected accept error and listener shutdown with handlers in flight under every schedule within the bound; oracle: no unrecovered or recovered panic, no thread or socket left, StreamServe/Handle return only after their handlers",
+   text="TCP: every address-type byte x fillers, domain lengths, headers truncated at every length, out-of-range and zero chunk lengths, every outcome class, each followed by a well-formed connection that must be served; UDP: the same shapes as datagrams, replies of boundary sizes from IPv4/IPv6/zoned sources, socket-creation failure, shutdown; concurrent hostile+normal connections, injected accept error, listener shutdown with handlers in flight, and associations expiring while datagrams arrive (unordered conflicting map accesses = runtime abort) under every schedule within the bound; oracle: no unrecovered or recovered panic, no thread or socket left, StreamServe/Handle return only after their handlers",
    note="deviation bound 1 (2)"),
  "C06": dict(engine="E", tech=E + " on a virtual clock",
-   text="every probe of the grid (random bytes of every length 0..120 and large, every truncation <50 of a valid stream, every single-bit flip of a valid 3-chunk stream, replays) x 4 ciphers x key-list sizes x client behaviours {keep open, FIN, more data at T/2} runs through the real handler; the reference model decides whether it authenticates; oracle: zero bytes written, no dial, close exactly at min(client close, t0+59s) by FIN, AddProbe bytes = bytes sent; post-authentication invalid streams are never actively closed",
+   text="every probe of the grid (random bytes of every length 0..120 and large, every truncation <50 of a valid stream, every single-bit flip of a valid 3-chunk stream, replays) x 4 ciphers x key-list sizes x client behaviours {keep open, FIN, more data at T/2} runs through the real handler; the reference model decides whether it authenticates; oracle: zero bytes written, no dial, close exactly at min(client close, t0+59s) by FIN, AddProbe bytes = bytes sent; post-authentication invalid streams are never actively closed; replays against the whole server in both configuration formats",
    note="virtual time (exact instants, no wall clock); quick tier samples one bit per byte for ciphers 2-4"),
  "C09": dict(engine="E", tech=E,
    text="the real server (package main, started through RunOutlineServer on vnet) is booted with every 3rd (every) configuration of a ~4300-element space (1-2 services x listener sets x ordered key lists with duplicated (cipher, secret) pairs and shared keys x legacy per-port keys, both formats mixed); then every (listener, key of the universe) pair is probed with a real TCP connection / UDP datagram; expectation (authenticates iff the (cipher, secret) belongs to the owner, first configured ID) is computed from the configuration alone",
@@ -56,10 +56,10 @@ checks = {
    text="every schedule within the bound of two handles on one address (stream and packet), user threads accepting/reading until error, closer threads closing at an arbitrary moment and calling once more, a connector/sender; variants: both close, one drains and is never closed (nothing may be lost), re-acquisition racing the released generation; oracle: no duplicate, no loss, closed-network error after Close, socket released, no thread left, undeliverable accepted connections closed",
    note="deviation bound 2 (3); handles are acquired before the threads start (the listen/close race itself is C13)"),
  "C17": dict(engine="Q+S", tech=Q + " on a virtual clock; " + S,
-   text="all 13^5 (13^6) sequences (plus 8^4 (8^5) around an empty key ID) over TCP open+authenticate/close and UDP add/remove for (client IP, key) pairs, unauthenticated connections, clock ticks and scrapes on the real Prometheus serviceMetrics; after every scrape the reported seconds per key and per location are compared with the union of open intervals; scrape racing traffic, ticks and another scrape with the clock read as a scheduling point",
+   text="all 13^5 (13^6) sequences (plus 8^4 (8^5) around an empty key ID) over TCP open+authenticate/close and UDP add/remove for (client IP, key) pairs, unauthenticated connections, clock ticks and scrapes on the real Prometheus serviceMetrics; after every scrape the reported seconds per key and per location are compared with the union of open intervals; scrape racing traffic, ticks and another scrape, and two tunnels of one fresh client starting at once, with the clock read as a scheduling point; every TCP outcome class (incl. refused replays) through the real stream handler and the real collectors",
    note="deviation bound 2 (4) for the concurrent units"),
  "C19": dict(engine="S", tech=S + " with a vector-clock happens-before race monitor and a linearizability check (porcupine; sequential specification = the implementation run sequentially)",
-   text="key list {Snapshot || MarkUsed || Update}, replay history {Add || Add || Add || Resize}, the association table under datagrams/replies/expiry/shutdown, shared listeners (C12 scenarios) and collectors (C17 concurrent scenarios): every schedule (unbounded for the small components, deviation-bounded otherwise) is executed with every instrumented field/map/list access checked for an unordered conflicting pair, and the recorded call/return histories checked for linearizability",
+   text="key list {Snapshot || MarkUsed || Update}, replay history {Add || Add || Add || Resize}, the association table under datagrams/replies/expiry/shutdown, shared listeners (C12 scenarios) and collectors (C17 concurrent scenarios): every schedule (unbounded for the small components, deviation-bounded otherwise) is executed with every instrumented field/map/list access checked for an unordered conflicting pair, and the recorded call/return histories checked for linearizability; a supplementary free-running pass of the component bodies under the Go race detector (sampling; reports are genuine, silence proves nothing)",
    note="the monitor sees fields of structs declared in the repository, maps reached through them and container/list objects; slices, captured locals and third-party internals are outside it"),
  "C20": dict(engine="E+Q", tech=E + "; " + Q,
    text="GetIPInfoFromAddr/GetIPInfoFromIP over 24 hosts of every class x 4 address forms, zoned, names, malformed, nil x 4 database behaviours with a recording fake database against the decision table (incl. database not consulted for XA/XL/disabled); all 35^2 (35^3) sequences x 3 database modes of traffic operations from distinctive client addresses through the real collectors, the text exposition scanned after every operation for address material, unknown label names and port-valued samples",
